@@ -99,6 +99,8 @@ class Path:
         self.tok_facts = []    # ('tok_eq', provenance, const, polarity) / ('is_int', provenance, polarity)
         self.flow = None       # None | 'break' | 'continue'
         self.ctor = None       # (value, node): the constructor call value most recently built by a `return`
+        self.objs = {}         # object id -> {attribute: provenance} of helper-class instances built on this path
+        self.counts = None     # set of possible numbers of tokens (from `len(tokens) in (..)` tests), or None
 
     def clone(self):
         p = Path()
@@ -111,7 +113,16 @@ class Path:
         p.tok_facts = list(self.tok_facts)
         p.flow = self.flow
         p.ctor = self.ctor
+        p.objs = {k: dict(v) for k, v in self.objs.items()}
+        p.counts = set(self.counts) if self.counts is not None else None
         return p
+
+    def set_counts(self, allowed):
+        self.counts = set(allowed) if self.counts is None else self.counts & set(allowed)
+        if self.exact_tokens is not None:
+            self.counts &= {self.exact_tokens}
+        if len(self.counts) == 1:
+            self.exact_tokens = next(iter(self.counts))
 
     # -- what the path knows -------------------------------------------------------------------------------------------------
     def paren_form(self):
@@ -166,30 +177,113 @@ class TokenFlow:
         if name in f.classes:
             return ('classref', name)
         if name in f.assign_nodes:
-            if name in self._module_cache:
-                v = self._module_cache[name]
-                if v is None:
-                    raise AnalysisError('token-flow: module-level name {} is defined in terms of itself'.format(name))
-                return v
-            self._module_cache[name] = None
-            node = f.assign_nodes[name]
-            p = Path()
-            saved, self._frames = self._frames, []
-            try:
-                st = ast.copy_location(ast.Assign(targets=[ast.Name(id='__module_value', ctx=ast.Store())], value=node.value), node)
-                sink = []
-                live = self._stmt(st, p, sink)
-            finally:
-                self._frames = saved
-            if len(live) != 1 or sink:
-                raise AnalysisError('token-flow: module-level table {} is not built by straight-line code'.format(name))
-            v = live[0].env['__module_value']
-            self._module_cache[name] = v
+            return self._module_expr(name, f.assign_nodes[name].value)
+        return None
+
+    def _module_expr(self, name, node):
+        """Provenance of a module-level expression (calls of factories walked), cached under the name it is assigned to."""
+        if name in self._module_cache:
+            v = self._module_cache[name]
+            if v is None:
+                raise AnalysisError('token-flow: module-level name {} is defined in terms of itself'.format(name))
             return v
+        self._module_cache[name] = None
+        p = Path()
+        saved, self._frames = self._frames, []
+        try:
+            st = ast.copy_location(ast.Assign(targets=[ast.Name(id='__module_value', ctx=ast.Store())], value=node), node)
+            sink = []
+            live = self._stmt(st, p, sink)
+        finally:
+            self._frames = saved
+        if len(live) != 1 or sink:
+            raise AnalysisError('token-flow: module-level table {} is not built by straight-line code'.format(name))
+        v = live[0].env['__module_value']
+        self._module_cache[name] = v
+        return v
+
+    def dict_of(self, v):
+        """[(constant key, value provenance)] of a dict-valued provenance (a literal, a comprehension, a module-level table), or None."""
+        if v[0] == 'dictv':
+            return v[1]
+        if v[0] == 'ref' and v[1] in self.facts.assign_nodes:
+            node = self.facts.assign_nodes[v[1]].value
+            if isinstance(node, (ast.Dict, ast.DictComp)):
+                d = self._module_expr('dict:' + v[1], node)
+                return d[1] if d[0] == 'dictv' else None
         return None
 
     def table_values(self, ref):
+        if ref[0] == 'dictv':
+            return {k for k, _ in ref[1]}
         return table_values(self.facts, ref)
+
+    def _iter_values(self, it):
+        """Elements a for-clause / loop sees, or None."""
+        if it[0] == 'list' and not any(x[0] == 'star' for x in it[1]):
+            return list(it[1])
+        if it[0] == 'dictv':
+            return [('const', k) for k, _ in it[1]]
+        if it[0] == 'ref':
+            t = self.facts.tables.get(it[1])
+            if t is not None:
+                return [('const', k) for k in t]
+            s_ = self.facts.sets.get(it[1])
+            if s_ is not None:
+                return [('const', k) for k in sorted(s_, key=repr)]
+        if it[0] == 'const' and isinstance(it[1], (list, tuple)):
+            return [('const', k) for k in it[1]]
+        if it[0] == 'const' and isinstance(it[1], dict):
+            return [('const', k) for k in it[1]]
+        if it[0] == 'const' and isinstance(it[1], (set, frozenset)):
+            return [('const', k) for k in sorted(it[1], key=repr)]
+        return None
+
+    def _comp(self, node, path):
+        """Value of a comprehension whose for-clauses run over literal tables and whose conditions are decidable."""
+        results = []
+
+        def rec(i, p):
+            if i == len(node.generators):
+                if isinstance(node, ast.DictComp):
+                    results.append((self.ev(node.key, p), self.ev(node.value, p)))
+                else:
+                    results.append(self.ev(node.elt, p))
+                return True
+            g = node.generators[i]
+            if g.is_async:
+                return False
+            vals = self._iter_values(self.ev(g.iter, p))
+            if vals is None:
+                return False
+            for v in vals:
+                q = p.clone()
+                self.bind(g.target, v, q)
+                keep = True
+                for c in g.ifs:
+                    d = self.decide(c, q)
+                    if d is None:
+                        return False
+                    if not d:
+                        keep = False
+                        break
+                if keep and not rec(i + 1, q):
+                    return False
+            return True
+
+        if not rec(0, path.clone()):
+            return ('expr', unparse(node))
+        if isinstance(node, ast.DictComp):
+            pairs = {}
+            for k, v in results:
+                if k[0] != 'const':
+                    return ('expr', unparse(node))
+                try:
+                    pairs[k[1]] = v
+                except TypeError:
+                    return ('expr', unparse(node))
+            return ('dictv', list(pairs.items()))
+        return ('list', results)
 
     # -- expressions ----------------------------------------------------------------------------------------------------------
     def ev(self, node, path):
@@ -217,8 +311,30 @@ class TokenFlow:
                 else:
                     out.append(self.ev(e, path))
             return ('list', out)
+        if isinstance(node, ast.Dict) and all(k is not None for k in node.keys):
+            pairs = []
+            for k, v in zip(node.keys, node.values):
+                kv = self.ev(k, path)
+                if kv[0] != 'const':
+                    return ('expr', unparse(node))
+                pairs.append((kv[1], self.ev(v, path)))
+            try:
+                return ('dictv', list(dict(pairs).items()))
+            except TypeError:
+                return ('expr', unparse(node))
+        if isinstance(node, (ast.DictComp, ast.ListComp, ast.SetComp, ast.GeneratorExp)):
+            return self._comp(node, path)
         if isinstance(node, ast.Attribute):
             base = self.ev(node.value, path)
+            if base[0] == 'obj':
+                attrs = path.objs.get(base[2], {})
+                if node.attr in attrs:
+                    return attrs[node.attr]
+                for c in self.facts.mro(base[1]):
+                    for st in self.facts.classes[c].node.body:
+                        if isinstance(st, ast.Assign) and any(isinstance(t, ast.Name) and t.id == node.attr for t in st.targets):
+                            return self.ev(st.value, Path())
+                return ('expr', unparse(node))
             if base == ('line_tokens',):
                 if node.attr == 'tokens':
                     return ('rest', 0, 0)
@@ -320,6 +436,12 @@ class TokenFlow:
             else:
                 args.append(self.ev(a, path))
         kwargs = {kw.arg: self.ev(kw.value, path) for kw in node.keywords if kw.arg}
+        if isinstance(node.func, ast.Attribute) and node.func.attr in ('items', 'keys', 'values') and not node.args and not node.keywords:
+            pairs = self.dict_of(self.ev(node.func.value, path))
+            if pairs is not None:
+                if node.func.attr == 'items':
+                    return ('list', [('list', [('const', k), v]) for k, v in pairs])
+                return ('list', [('const', k) if node.func.attr == 'keys' else v for k, v in pairs])
         if fn == 'parse_immediate' and args:
             return ('imm', args[0])
         if fn == 'int' and args:
@@ -340,12 +462,34 @@ class TokenFlow:
                 and dotted(test.left.func) == 'len' and len(test.left.args) == 1):
             v = self.ev(test.left.args[0], path)
             if v[0] == 'rest':
+                if isinstance(test.ops[0], (ast.In, ast.NotIn)):
+                    try:
+                        coll = fold(test.comparators[0], self._fold_env(path))
+                    except NotConstant:
+                        return None
+                    if isinstance(coll, (list, tuple, set, frozenset)) and all(isinstance(x, int) and not isinstance(x, bool) for x in coll):
+                        return v, test.ops[0], sorted(coll)
+                    return None
                 try:
                     n = self._int(test.comparators[0], path, None)
                 except NotConstant:
                     return None
                 if n is not None:
                     return v, test.ops[0], n
+        return None
+
+    def _rest_truth(self, v, path):
+        """Truthiness of a token-list provenance under what the path knows about the number of tokens."""
+        base = v[1] + v[2]
+        if path.exact_tokens is not None:
+            return path.exact_tokens > base
+        if path.counts is not None:
+            if all(c > base for c in path.counts):
+                return True
+            if all(c <= base for c in path.counts):
+                return False
+        if path.min_tokens > base:
+            return True
         return None
 
     def decide(self, test, path):
@@ -363,6 +507,16 @@ class TokenFlow:
                 return True
             return False if all(v is False for v in vals) else None
         lr = self._len_of_rest(test, path)
+        if lr is not None and isinstance(lr[2], list):
+            v, op, ns = lr
+            possible = {path.exact_tokens} if path.exact_tokens is not None else path.counts
+            if possible is not None:
+                hits = [(c - v[1] - v[2]) in ns for c in possible]
+                if all(hits):
+                    return isinstance(op, ast.In)
+                if not any(hits):
+                    return isinstance(op, ast.NotIn)
+            return None
         if lr is not None and path.exact_tokens is not None:
             v, op, n = lr
             have = path.exact_tokens - v[1] - v[2]
@@ -420,8 +574,12 @@ class TokenFlow:
         v = self.ev(test, path)
         if v[0] == 'const':
             return bool(v[1])
-        if v[0] in ('func', 'closure', 'classref', 'line'):
+        if v[0] in ('func', 'closure', 'classref', 'line', 'obj'):
             return True
+        if v[0] == 'rest':
+            return self._rest_truth(v, path)
+        if v[0] == 'dictv':
+            return bool(v[1])
         if v[0] == 'list' and not any(x[0] == 'star' for x in v[1]):
             return bool(v[1])
         return None
@@ -455,6 +613,11 @@ class TokenFlow:
                     self._learn(v, path, polarity)
             return
         lr = self._len_of_rest(test, path)
+        if lr is not None and isinstance(lr[2], list):
+            v, op, ns = lr
+            if isinstance(op, ast.In) == polarity:
+                path.set_counts({v[1] + v[2] + x for x in ns})
+            return
         if lr is not None:
             v, op, n = lr
             total = v[1] + v[2] + n
@@ -468,6 +631,17 @@ class TokenFlow:
         if isinstance(test, ast.Call) and dotted(test.func) == 'is_int' and len(test.args) == 1:
             path.tok_facts.append(('is_int', self.ev(test.args[0], path), polarity))
             return
+        if isinstance(test, (ast.Name, ast.Subscript, ast.Attribute)):
+            v = self.ev(test, path)
+            if v[0] == 'rest':
+                base = v[1] + v[2]
+                if polarity:
+                    path.min_tokens = max(path.min_tokens, base + 1)
+                    if path.counts is not None:
+                        path.set_counts({c for c in path.counts if c > base})
+                else:
+                    path.exact_tokens = base
+            return
         if isinstance(test, ast.Compare) and len(test.ops) == 1:
             left = self.ev(test.left, path)
             right = self.ev(test.comparators[0], path)
@@ -480,6 +654,8 @@ class TokenFlow:
                 elif isinstance(op, (ast.In, ast.NotIn)):
                     if right[0] == 'ref':
                         path.head_facts.append(('in', right, polarity, test))
+                    elif right[0] == 'dictv':
+                        path.head_facts.append(('in', ('const', frozenset(k for k, _ in right[1])), polarity, test))
                     elif right[0] in ('const', 'list'):
                         vals = self.table_values(right) if right[0] == 'const' else (
                             {x[1] for x in right[1]} if all(x[0] == 'const' for x in right[1]) else None)
@@ -540,54 +716,113 @@ class TokenFlow:
     def bind(self, target, value, path):
         if isinstance(target, ast.Name):
             path.env[target.id] = value
+        elif isinstance(target, ast.Attribute):
+            base = self.ev(target.value, path)
+            if base[0] == 'obj':
+                path.objs.setdefault(base[2], {})[target.attr] = value
         elif isinstance(target, (ast.Tuple, ast.List)):
             self.unpack(target.elts, value, path, target)
 
     # -- inlining -------------------------------------------------------------------------------------------------------------
+    def helper_class(self, cname):
+        """A class of the module that is neither an item, an expression node nor an exception: instances are modelled as objects
+        (attribute -> provenance) and their methods are walked."""
+        f = self.facts
+        if cname not in f.classes:
+            return False
+        for c in f.mro(cname):
+            if c in ('Item', 'Expr'):
+                return False
+            for b in f.classes[c].bases:
+                if b is None or (b not in f.classes and b not in ('object',)):
+                    return False            # Exception, NamedTuple, abc.ABC, ...: not modelled
+        return True
+
     def _callee(self, call, path):
-        """(FunctionDef, closure env or None, name) for a call this evaluator walks instead of keeping it symbolic."""
-        if not (isinstance(call, ast.Call) and isinstance(call.func, ast.Name)):
+        """(FunctionDef, closure env or None, name, self spec) for a call this evaluator walks instead of keeping it symbolic.
+        self spec: None for a plain function, ('new', class) for the instantiation of a helper class (its __init__ is walked),
+        ('obj', value) for a method of such an instance."""
+        if not isinstance(call, ast.Call):
             return None
-        name = call.func.id
-        v = path.env.get(name)
-        if v is None:
-            if name in OPAQUE:
+        selfspec = None
+        if isinstance(call.func, ast.Attribute):
+            base = self.ev(call.func.value, path)
+            if base[0] != 'obj':
                 return None
-            if name in self.facts.funcs:
-                v = ('func', name)
-            elif name in self.facts.assign_nodes and name not in self.facts.tables and name not in self.facts.sets \
-                    and name not in self.consts and isinstance(self.facts.assign_nodes[name].value, (ast.Call, ast.Name)):
-                # PARSE_X = factory(...) / PARSE_X = other_function at module level
-                v = self.module_value(name)
-                if v is None:
+            _, fn = self.facts.method(base[1], call.func.attr)
+            if fn is None:
+                return None
+            env, fname, selfspec = None, '{}.{}'.format(base[1], call.func.attr), ('obj', base)
+            deco = [dotted(d) for d in fn.decorator_list]
+            if deco == ['staticmethod']:
+                selfspec = ('static',)
+            elif deco:
+                return None
+        elif isinstance(call.func, ast.Name):
+            name = call.func.id
+            v = path.env.get(name)
+            if v is None:
+                if name in OPAQUE:
+                    return None
+                if name in self.facts.funcs:
+                    v = ('func', name)
+                elif name in self.facts.classes:
+                    v = ('classref', name)
+                elif name in self.facts.assign_nodes and name not in self.facts.tables and name not in self.facts.sets \
+                        and name not in self.consts and isinstance(self.facts.assign_nodes[name].value, (ast.Call, ast.Name)):
+                    # PARSE_X = factory(...) / PARSE_X = other_function at module level
+                    v = self.module_value(name)
+                    if v is None:
+                        return None
+                else:
+                    return None
+            if v[0] == 'func':
+                if v[1] in OPAQUE or v[1] not in self.facts.funcs:
+                    return None
+                fn, env, fname = self.facts.funcs[v[1]], None, v[1]
+            elif v[0] == 'closure':
+                fn, env, fname = v[1], v[2], v[1].name
+            elif v[0] == 'classref' and self.helper_class(v[1]):
+                _, fn = self.facts.method(v[1], '__init__')
+                env, fname, selfspec = None, v[1] + '.__init__', ('new', v[1])
+                if fn is None:
+                    return None
+                if fn.decorator_list:
                     return None
             else:
                 return None
-        if v[0] == 'func':
-            if v[1] in OPAQUE or v[1] not in self.facts.funcs:
+            if selfspec is None and fn.decorator_list:
                 return None
-            fn, env, fname = self.facts.funcs[v[1]], None, v[1]
-        elif v[0] == 'closure':
-            fn, env, fname = v[1], v[2], v[1].name
         else:
             return None
         if any(f.name == fname and f.node is fn for f in self._frames) or len(self._frames) >= MAX_DEPTH:
             return None
         if fn.args.kwarg or any(isinstance(a, ast.Starred) for a in call.args) or any(k.arg is None for k in call.keywords):
             return None
-        if fn.decorator_list:
-            return None
-        return fn, env, fname
+        return fn, env, fname, selfspec
 
     def _inline(self, call, path, outcomes):
         """[(path, return value)] of walking the callee with its parameters bound to the argument provenances."""
-        fn, cenv, fname = self._callee(call, path)
+        fn, cenv, fname, selfspec = self._callee(call, path)
         a = fn.args
         pos = [x.arg for x in a.posonlyargs + a.args]
-        if len(call.args) > len(pos) and not a.vararg:
-            raise AnalysisError('token-flow: call {} passes more positional arguments than {} takes'.format(unparse(call), fname))
         env = dict(cenv) if cenv is not None else {}
         bound = set()
+        new_obj = None
+        if selfspec is not None and selfspec[0] in ('new', 'obj'):
+            if not pos:
+                raise AnalysisError('token-flow: method {} takes no self'.format(fname))
+            if selfspec[0] == 'new':
+                self._tmp += 1
+                new_obj = ('obj', selfspec[1], self._tmp)
+                path.objs[new_obj[2]] = {}
+                env[pos[0]] = new_obj
+            else:
+                env[pos[0]] = selfspec[1]
+            bound.add(pos[0])
+            pos = pos[1:]
+        if len(call.args) > len(pos) and not a.vararg:
+            raise AnalysisError('token-flow: call {} passes more positional arguments than {} takes'.format(unparse(call), fname))
         if a.vararg:
             env[a.vararg.arg] = ('list', [self.ev(x, path) for x in call.args[len(pos):]])
         for p_, arg in zip(pos, call.args):
@@ -599,7 +834,8 @@ class TokenFlow:
                 raise AnalysisError('token-flow: call {} passes unknown keyword {}'.format(unparse(call), kw.arg))
             env[kw.arg] = self.ev(kw.value, path)
             bound.add(kw.arg)
-        defaults = dict(zip(pos[len(pos) - len(a.defaults):], a.defaults))
+        allpos = [x.arg for x in a.posonlyargs + a.args]
+        defaults = dict(zip(allpos[len(allpos) - len(a.defaults):], a.defaults))
         for x, d in zip(a.kwonlyargs, a.kw_defaults):
             if d is not None:
                 defaults[x.arg] = d
@@ -623,49 +859,50 @@ class TokenFlow:
                 raise AnalysisError('token-flow: break/continue outside a loop in ' + fname)
             out.append((p_, ('const', None)))
         out.extend(frame.returns)
+        if new_obj is not None:
+            out = [(p_, new_obj) for p_, _ in out]
         for p_, _ in out:
             p_.env = dict(caller_env)
         return out
 
     def _lookup(self, n, path):
-        """(table name, {key: value name}, default node or None, subscript?) for TABLE.get(head[, default]) / TABLE[head] where TABLE
-        is a module-level dict literal with constant keys and the key is the head token."""
+        """(text, [(key, value provenance)], default node or None, subscript?) for TABLE.get(head[, default]) / TABLE[head] where
+        TABLE is a dict with constant keys (a literal, a comprehension over literal tables, module-level or local) and the key is
+        the head token."""
         if isinstance(n, ast.Call) and isinstance(n.func, ast.Attribute) and n.func.attr == 'get' and 1 <= len(n.args) <= 2 \
-                and not n.keywords and isinstance(n.func.value, ast.Name):
-            tname, key, default, sub = n.func.value.id, n.args[0], (n.args[1] if len(n.args) == 2 else None), False
-        elif isinstance(n, ast.Subscript) and isinstance(n.value, ast.Name) and isinstance(getattr(n, 'ctx', None), ast.Load) \
-                and not isinstance(n.slice, ast.Slice):
-            tname, key, default, sub = n.value.id, n.slice, None, True
+                and not n.keywords:
+            base, key, default, sub = n.func.value, n.args[0], (n.args[1] if len(n.args) == 2 else None), False
+        elif isinstance(n, ast.Subscript) and isinstance(getattr(n, 'ctx', None), ast.Load) and not isinstance(n.slice, ast.Slice):
+            base, key, default, sub = n.value, n.slice, None, True
         else:
             return None
-        if tname in path.env or tname not in self.facts.tables or not isinstance(self.facts.assign_nodes.get(tname), ast.Assign) \
-                or not isinstance(self.facts.assign_nodes[tname].value, ast.Dict):
+        if not isinstance(base, (ast.Name, ast.Attribute)):
             return None
         if not self.is_head(self.ev(key, path)):
             return None
-        return tname, self.facts.assign_nodes[tname].value, default, sub
+        pairs = self.dict_of(self.ev(base, path))
+        if pairs is None:
+            return None
+        return unparse(base), pairs, default, sub
 
     def _expand_lookup(self, n, path, outcomes):
-        tname, dnode, default, sub = self._lookup(n, path)
-        groups = []             # (value provenance, value text, [keys])
+        tname, pairs, default, sub = self._lookup(n, path)
+        groups = []             # (value provenance, [keys])
         keys_all = []
-        for k, v in zip(dnode.keys, dnode.values):
-            if k is None:
-                raise AnalysisError('token-flow: dispatch table {} uses ** unpacking'.format(tname))
-            try:
-                kv = fold(k, self.consts)
-            except NotConstant:
-                raise AnalysisError('token-flow: dispatch table {} has a non-constant key {}'.format(tname, unparse(k)))
+        for kv, v in pairs:
             keys_all.append(kv)
-            text = unparse(v)
             for g in groups:
-                if g[1] == text:
-                    g[2].append(kv)
+                try:
+                    same = g[0] == v
+                except Exception:
+                    same = g[0] is v
+                if same:
+                    g[1].append(kv)
                     break
             else:
-                groups.append((v, text, [kv]))
+                groups.append((v, [kv]))
         out = []
-        for vnode, text, keys in groups:
+        for v, keys in groups:
             keys = [k for k in keys if admits(self.facts, path, k)]
             if not keys:
                 continue
@@ -674,9 +911,8 @@ class TokenFlow:
                 p.head_facts.append(('eq', keys[0], True, n))
             else:
                 p.head_facts.append(('in', ('const', frozenset(keys)), True, n))
-            p.conds.append(('{} -> {}'.format(unparse(n), text), True, n))
-            for q, vn in self._hoist(vnode, p, outcomes):
-                out.append((q, self.ev(vn, q)))
+            p.conds.append(('{} -> entry of {}'.format(unparse(n), ', '.join(sorted(map(str, keys)))[:60]), True, n))
+            out.append((p, v))
         cands = self.head_candidates(path)
         if cands is None or (cands - set(keys_all)):
             p = path
@@ -698,6 +934,9 @@ class TokenFlow:
         first; a conditional expression before anything in its branches (only the branch taken is evaluated)."""
         if isinstance(n, ast.IfExp):
             return self._target(n.test, path) or n
+        if isinstance(n, ast.BoolOp):
+            # short circuit: `a or b` is `a if a else b`; only the operand reached is evaluated
+            return self._target(n.values[0], path) or n
         if isinstance(n, (ast.Lambda, ast.ListComp, ast.GeneratorExp, ast.SetComp, ast.DictComp)):
             return None
         for child in ast.iter_child_nodes(n):
@@ -720,6 +959,13 @@ class TokenFlow:
             if target is None:
                 done.append((p, n))
                 continue
+            if isinstance(target, ast.BoolOp):
+                first = target.values[0]
+                rest = target.values[1] if len(target.values) == 2 else ast.copy_location(ast.BoolOp(op=target.op, values=target.values[1:]), target)
+                is_or = isinstance(target.op, ast.Or)
+                orig = target
+                target = ast.copy_location(ast.IfExp(test=first, body=first if is_or else rest, orelse=rest if is_or else first), orig)
+                n = _replace(n, orig, target)
             if isinstance(target, ast.IfExp):
                 d = self.decide(target.test, p)
                 if d is None:
@@ -890,8 +1136,9 @@ class TokenFlow:
         out = []
         for p, it_node in self._hoist(st.iter, path, outcomes):
             it = self.ev(it_node, p)
-            if it[0] == 'const' and isinstance(it[1], (list, tuple)):
-                it = ('list', [('const', x) for x in it[1]])
+            vals = self._iter_values(it)
+            if vals is not None:
+                it = ('list', vals)
             if it[0] != 'list' or any(x[0] == 'star' for x in it[1]):
                 raise AnalysisError('token-flow: loop over {} is not a loop over a literal table: {}'.format(
                     unparse(st.iter), unparse(st).split('\n')[0]))
